@@ -44,6 +44,11 @@ def _prod_term(fs):
     return acc
 
 
+# fresh sqrt atoms: z3 term id of y -> radicand Val a with the defining axiom y*y = a (y >= 0).
+# Products reduce y^2 to a on the fly (sound rewriting modulo the axiom); see Ctx.sqrt.
+SQRT_ATOMS = {}
+
+
 class Val:
     __slots__ = ("c", "nf", "df")
 
@@ -126,7 +131,29 @@ class Val:
                     df[k] = (t, pd - m)
                 else:
                     del df[k]
-        return Val(self.c * o.c, nf, df)
+        r = Val(self.c * o.c, nf, df)
+        if SQRT_ATOMS:
+            for k in list(nf):
+                if k in SQRT_ATOMS and nf[k][1] >= 2:
+                    t, pw = nf[k]
+                    q = pw // 2
+                    nf2 = dict(nf)
+                    if pw - 2 * q:
+                        nf2[k] = (t, pw - 2 * q)
+                    else:
+                        del nf2[k]
+                    return Val(r.c, nf2, df) * (SQRT_ATOMS[k] ** q)
+            for k in list(df):
+                if k in SQRT_ATOMS and df[k][1] >= 2:
+                    t, pw = df[k]
+                    q = pw // 2
+                    df2 = dict(df)
+                    if pw - 2 * q:
+                        df2[k] = (t, pw - 2 * q)
+                    else:
+                        del df2[k]
+                    return Val(r.c, nf, df2) * (SQRT_ATOMS[k] ** (-q))
+        return r
 
     __rmul__ = __mul__
 
